@@ -268,6 +268,21 @@ var families = []family{
 		b.WriteString("\tt.P(x)\n}\n")
 		return b.String(), fmt.Sprint(want)
 	}},
+	{"variadic-arguments", 128, func(n int) (string, string) {
+		// a call of a Scriggo-defined variadic function with n explicit arguments (the count travels in an int8 operand)
+		var b strings.Builder
+		b.WriteString("package main\nimport \"t\"\nfunc sum(xs ...int) int {\n\ts := 0\n\tfor _, x := range xs {\n\t\ts += x\n\t}\n\treturn s*1000 + len(xs)\n}\nfunc main() {\n\tt.P(sum(")
+		want := 0
+		for i := 1; i <= n; i++ {
+			if i > 1 {
+				b.WriteString(", ")
+			}
+			fmt.Fprintf(&b, "t.I(%d)", i)
+			want += i
+		}
+		b.WriteString("))\n}\n")
+		return b.String(), fmt.Sprint(want*1000 + n)
+	}},
 	{"functions", 256, func(n int) (string, string) {
 		var b strings.Builder
 		b.WriteString("package main\nimport \"t\"\n")
